@@ -410,6 +410,32 @@ def rule_G2(prog, fixture=False, only_compound=False):
                           "the pointer is advanced by a loop bounded by %s but no live guard relates its size to %s" % (
                               ", ".join("/".join(o) for o in missing), ", ".join("/".join(o) for o in sorted(bobjs))),
                           bobjs, foreign))
+        # two-range algorithms: std::transform(a.begin(), a.end(), b.begin(), out, op) reads b as far as a is long
+        for node in f.walk():
+            if not (node.k == "CallExpr" and node.callee and node.callee.get("qn") in ("std::transform", "std::equal", "std::inner_product", "std::mismatch")):
+                continue
+            args = node.call_args()
+            qn_ = node.callee.get("qn")
+            if (qn_ == "std::transform" and len(args) < 5) or len(args) < 3:
+                continue
+            aobjs = {o for o in ctx.base_objs(args[0]) if o[0] in ("parm", "this") and (o in cobjs or o == THIS)}
+            bobjs = {o for o in ctx.base_objs(args[2]) if o[0] in ("parm", "this") and (o in cobjs or o == THIS)}
+            foreign = aobjs - bobjs
+            if not aobjs or not bobjs or not foreign:
+                continue
+            missing, found = [], []
+            for fo in sorted(foreign):
+                g = None
+                for b in bobjs:
+                    g = ctx.relating_guard_at(node, b, fo, need_throw=need_throw_here, big=b)
+                    if g is not None:
+                        break
+                (found if g is not None else missing).append(g if g is not None else fo)
+            sites.append((node, "foreign-bound", not missing,
+                          ("guard %s" % found[0].cond.text()) if not missing else
+                          "the second range is read as far as %s is long but no live guard relates its size to %s" % (
+                              ", ".join("/".join(o) for o in missing), ", ".join("/".join(o) for o in sorted(bobjs))),
+                          bobjs, foreign))
         if is_compound:
             # G2a: "rejected with an exception and left unchanged" - every element write of the left operand is
             # dominated by the throwing size guard
@@ -438,7 +464,7 @@ def rule_G2(prog, fixture=False, only_compound=False):
         is_array_arith = bool(f.cls and f.cls.startswith("dsplib::base_array<") and f.params and "base_array<" in f.params[0].get("t", "")
                               and _short_name(f.qn) in ("operator+", "operator-", "operator*", "operator/", "operator+=", "operator-=",
                                                          "operator*=", "operator/="))
-        if is_compound or is_array_arith:
+        if is_compound or is_array_arith or (f.cls and f.cls.startswith("dsplib::base_array<") and f.params and "base_array<" in f.params[0].get("t", "")):
             props.append("C03")
         if f.cls and (f.cls.startswith("dsplib::LmsFilter<") or f.cls.startswith("dsplib::RlsFilter<")):
             props.append("C12")
